@@ -198,8 +198,16 @@ func (d *Decoder) LoadParityData() error {
 	// TODO: Support searching for volume data without relying on
 	// filenames.
 
-	// TODO: Count only files saved in volume set.
-	fileCount := d.indexVolume.header.FileCount
+	// Only files saved in the volume set take up shards.
+	var fileCount uint64
+	for _, entry := range d.indexVolume.entries {
+		if entry.header.Status.savedInVolumeSet() {
+			fileCount++
+		}
+	}
+	if fileCount >= 256 {
+		return errors.New("too many files saved in volume set")
+	}
 	maxParityVolumeCount := 256 - fileCount
 	// TODO: Support more than 99 parity volumes.
 	if maxParityVolumeCount > 99 {
